@@ -37,7 +37,9 @@ RULE = (
     "in [-1,1] and mindist>0, KNeighbors() / k=1 with mean/median/max, Linear/Cubic with rescale on/off, ScipyGridder "
     "linear/nearest/cubic, Chains [Trend(0..2), exact], nested Chains, Vectors of exact gridders and of Chains, vector Chains "
     "ending in VectorSpline2D) and predicted at the fitted coordinates (also after the caller overwrote its own arrays); "
-    "DEFAULTS stream: every estimator built with NO optional arguments and fitted without the weights argument against the same estimator with the "
+    "CLOSE_PAIRS stream: distinct points whose mutual distance is far below the float32 resolution of the coordinates - coordinate magnitude 1e9 "
+    "with pairs 5-25 units apart, UTM-like offsets 5e5 / 7.5e6 with pairs 0.01-0.03 m apart, the two data values of a pair clearly different - for "
+    "KNeighbors(k=1) alone / in a Vector / in a Chain (up to ~800 points), Linear, Cubic and Spline; DEFAULTS stream: every estimator built with NO optional arguments and fitted without the weights argument against the same estimator with the "
     "documented defaults spelled out (get_params() and bit-identical predictions); GRID_LIKE stream: coordinates and data as 2-D arrays - a meshgrid whose border rows / columns are untouched while the interior nodes are moved "
     "off the grid lines by 10-40 % of the spacing, true meshgrids, scattered points reshaped 2-D, 'ij'-indexed meshgrids, (1, n) / (n, 1) point lists "
     "whose end points share a coordinate, rotated and sheared grids - for every exact interpolator, Trend with an exact polynomial and "
@@ -78,8 +80,8 @@ ASSUMPTIONS = [
     "the fitted points are pairwise distinct (cases with duplicates are skipped, the statement quantifies over distinct points)",
 ]
 FLOORS = {
-    "quick": {'eval:spline_exact': 512, 'eval:vspline_exact': 156, 'eval:knn_exact': 313, 'eval:scipy_exact': 544, 'eval:chain_exact': 226, 'eval:vector_exact': 69, 'eval:trend_reproduction': 626, 'informative_kappa_ge_1e6:spline': 75, 'informative_kappa_ge_1e6:trend': 115, 'distinct_nontrivial': 1350, 'layout:coordinates:2d_fortran': 150, 'layout:coordinates:2d_transposed_view': 140, 'layout:coordinates:2d_strided': 150, 'layout:coordinates:1d_series': 250, 'layout:data:2d_fortran': 70, 'layout:data:2d_transposed_view': 80, 'layout:data:2d_strided': 80, 'layout:data:2d_negative_stride': 80, 'layout:data:1d_series': 140, 'layout:data_laid_out_differently_from_coordinates': 800, 'data_magnitude:1e+00': 683, 'data_magnitude:1e+03': 64, 'data_magnitude:1e+06': 56, 'data_magnitude:1e+09': 55, 'data_magnitude:1e+12': 48, 'data_magnitude:1e+15': 63, 'data_magnitude:1e-03': 52, 'data_magnitude:1e-06': 48, 'data_magnitude:1e-09': 55, 'data_magnitude:1e-12': 56, 'data_magnitude:1e-15': 48, 'size_class:knn:127': 1, 'size_class:knn:128': 1, 'size_class:knn:129': 1, 'size_class:knn:255': 1, 'size_class:knn:256': 1, 'size_class:knn:257': 1, 'size_class:knn:385': 1, 'size_class:knn:513': 1, 'size_class:linear:127': 1, 'size_class:linear:128': 1, 'size_class:linear:129': 1, 'size_class:linear:255': 1, 'size_class:linear:256': 1, 'size_class:linear:257': 1, 'size_class:linear:385': 1, 'size_class:linear:513': 1, 'size_class:spline:127': 1, 'size_class:spline:128': 1, 'size_class:spline:129': 1, 'size_class:spline:255': 1, 'size_class:spline:256': 1, 'size_class:spline:257': 1, 'size_class:spline:385': 1, 'size_class:spline:513': 1, 'size_class:vspline:127': 1, 'size_class:vspline:128': 1, 'size_class:vspline:129': 1, 'size_class:vspline:255': 1, 'size_class:vspline:256': 1, 'size_class:vspline:257': 1, 'size_class:vspline:385': 1, 'size_class:vspline:513': 1, 'history:error_then_fit:chain': 2, 'history:error_then_fit:cubic': 2, 'history:error_then_fit:knn': 2, 'history:error_then_fit:linear': 2, 'history:error_then_fit:spline': 2, 'history:error_then_fit:trend': 2, 'history:error_then_fit:vector': 2, 'history:error_then_fit:vspline': 2, 'history:held_instances_reconfigured': 7, 'history:reconfigure_after_use:chain': 2, 'history:reconfigure_after_use:cubic': 2, 'history:reconfigure_after_use:knn': 2, 'history:reconfigure_after_use:linear': 2, 'history:reconfigure_after_use:spline': 2, 'history:reconfigure_after_use:trend': 2, 'history:reconfigure_after_use:vector': 2, 'history:reconfigure_after_use:vspline': 2, 'history:reconfigure_before_use:chain': 2, 'history:reconfigure_before_use:cubic': 2, 'history:reconfigure_before_use:knn': 2, 'history:reconfigure_before_use:linear': 2, 'history:reconfigure_before_use:spline': 2, 'history:reconfigure_before_use:trend': 2, 'history:reconfigure_before_use:vector': 2, 'history:reconfigure_before_use:vspline': 2, 'history:refit_after_use:chain': 2, 'history:refit_after_use:cubic': 2, 'history:refit_after_use:knn': 2, 'history:refit_after_use:linear': 2, 'history:refit_after_use:spline': 2, 'history:refit_after_use:trend': 2, 'history:refit_after_use:vector': 2, 'history:refit_after_use:vspline': 2, 'history:refit_directly:chain': 2, 'history:refit_directly:cubic': 2, 'history:refit_directly:knn': 2, 'history:refit_directly:linear': 2, 'history:refit_directly:spline': 2, 'history:refit_directly:trend': 2, 'history:refit_directly:vector': 2, 'history:refit_directly:vspline': 2, 'history:refit_same_arrays_new_contents:chain': 2, 'history:refit_same_arrays_new_contents:cubic': 2, 'history:refit_same_arrays_new_contents:knn': 2, 'history:refit_same_arrays_new_contents:linear': 2, 'history:refit_same_arrays_new_contents:spline': 2, 'history:refit_same_arrays_new_contents:trend': 2, 'history:refit_same_arrays_new_contents:vector': 2, 'history:refit_same_arrays_new_contents:vspline': 2, 'history:size_change:equal': 21, 'history:size_change:larger': 28, 'history:size_change:smaller': 21, 'history:use:filter': 9, 'history:use:grid': 6, 'history:use:nothing': 7, 'history:use:predict_data': 4, 'history:use:predict_elsewhere': 8, 'history:use:score': 7, 'history:via_attribute_assignment': 10, 'history:via_set_params': 11, 'fit_raised:vspline:ValueError': 2, 'explicit_forces_at_the_data:spline:other_order': 16, 'explicit_forces_at_the_data:spline:same_order': 4, 'explicit_forces_at_the_data:vspline:other_order': 16, 'explicit_forces_at_the_data:vspline:same_order': 4, 'forces_container:list_of_arrays': 6, 'forces_container:strided_columns': 14, 'forces_container:tuple_of_2d_arrays': 6, 'forces_container:tuple_of_arrays': 6, 'forces_container:tuple_of_lists': 6, 'forces_order:chain_spline:np_unique': 2, 'forces_order:chain_spline:reversed': 2, 'forces_order:chain_spline:same_order': 2, 'forces_order:chain_spline:shuffled': 2, 'forces_order:chain_spline:sorted': 2, 'forces_order:chain_vspline:np_unique': 2, 'forces_order:chain_vspline:reversed': 2, 'forces_order:chain_vspline:same_order': 2, 'forces_order:chain_vspline:shuffled': 2, 'forces_order:chain_vspline:sorted': 2, 'forces_order:spline:np_unique': 2, 'forces_order:spline:reversed': 2, 'forces_order:spline:same_order': 2, 'forces_order:spline:shuffled': 2, 'forces_order:spline:sorted': 2, 'forces_order:vspline:np_unique': 2, 'forces_order:vspline:reversed': 2, 'forces_order:vspline:same_order': 2, 'forces_order:vspline:shuffled': 2, 'forces_order:vspline:sorted': 2, 'spelling:knn_k:int32': 1, 'spelling:knn_k:int64': 1, 'spelling:knn_k:int8': 1, 'spelling:knn_k:uint8': 1, 'spelling:scipy_rescale:bool(False)': 1, 'spelling:scipy_rescale:bool(True)': 1, 'spelling:scipy_rescale:int(False)': 1, 'spelling:scipy_rescale:int(True)': 1, 'spelling:spline_mindist:0-d array': 1, 'spelling:spline_mindist:int': 1, 'spelling:spline_mindist:np.float32': 1, 'spelling:spline_mindist:np.int64': 1, 'spelling:trend_degree:0-d array': 1, 'spelling:trend_degree:int32': 1, 'spelling:trend_degree:int64': 1, 'spelling:trend_degree:uint8': 1, 'spelling:vspline_mindist:0-d array': 1, 'spelling:vspline_mindist:int': 1, 'spelling:vspline_mindist:np.float32': 1, 'spelling:vspline_mindist:np.int64': 1, 'spelling:vspline_poisson:float32(0.5)': 1, 'spelling:vspline_poisson:int(-1)': 1, 'spelling:vspline_poisson:int(0)': 1, 'spelling:vspline_poisson:int(1)': 1, 'spelling:vspline_poisson:int64(-1)': 1, 'spelling:vspline_poisson:int64(0)': 1, 'spelling:vspline_poisson:ndarray(0.25)': 1, 'spelling:vspline_poisson:ndarray(1)': 1, 'errstate_raise:chain': 3, 'errstate_raise:forces_order': 3, 'errstate_raise:knn': 3, 'errstate_raise:scipy': 3, 'errstate_raise:spline': 3, 'errstate_raise:trend_poly': 3, 'errstate_raise:vector': 3, 'errstate_raise:vspline': 3, 'judged_inside_a_large_query:chain': 1, 'judged_inside_a_large_query:knn': 1, 'judged_inside_a_large_query:scipy': 1, 'judged_inside_a_large_query:spline': 1, 'judged_inside_a_large_query:vector': 1, 'judged_inside_a_large_query:vspline': 1, 'large_predict:chain_knn:200000': 1, 'large_predict:chain_spline:450x600': 1, 'large_predict:cubic:400x400': 1, 'large_predict:knn:131073': 1, 'large_predict:linear:200000': 1, 'large_predict:spline:450x600': 1, 'large_predict:vector_knn:400x400': 1, 'large_predict:vspline:131073': 1, 'eval:shape_independence': 51, 'grid_like:interior_jitter': 6, 'grid_like:interior_jitter:spline': 1, 'grid_like:interior_jitter:knn': 1, 'grid_like:interior_jitter:linear': 1, 'grid_like:interior_jitter:cubic': 1, 'grid_like:interior_jitter:vspline': 1, 'grid_like:interior_jitter:trend': 1, 'grid_like:interior_jitter:chain_trend_spline': 1, 'grid_like:interior_jitter:vector': 1, 'grid_like:regular': 6, 'grid_like:regular:spline': 1, 'grid_like:regular:knn': 1, 'grid_like:regular:linear': 1, 'grid_like:regular:cubic': 1, 'grid_like:regular:vspline': 1, 'grid_like:regular:trend': 1, 'grid_like:regular:chain_trend_spline': 1, 'grid_like:regular:vector': 1, 'grid_like:scattered_2d': 6, 'grid_like:scattered_2d:spline': 1, 'grid_like:scattered_2d:knn': 1, 'grid_like:scattered_2d:linear': 1, 'grid_like:scattered_2d:cubic': 1, 'grid_like:scattered_2d:vspline': 1, 'grid_like:scattered_2d:trend': 1, 'grid_like:scattered_2d:chain_trend_spline': 1, 'grid_like:scattered_2d:vector': 1, 'grid_like:ij_meshgrid': 6, 'grid_like:ij_meshgrid:spline': 1, 'grid_like:ij_meshgrid:knn': 1, 'grid_like:ij_meshgrid:linear': 1, 'grid_like:ij_meshgrid:cubic': 1, 'grid_like:ij_meshgrid:vspline': 1, 'grid_like:ij_meshgrid:trend': 1, 'grid_like:ij_meshgrid:chain_trend_spline': 1, 'grid_like:ij_meshgrid:vector': 1, 'grid_like:row_vector': 6, 'grid_like:row_vector:spline': 1, 'grid_like:row_vector:knn': 1, 'grid_like:row_vector:linear': 1, 'grid_like:row_vector:cubic': 1, 'grid_like:row_vector:vspline': 1, 'grid_like:row_vector:trend': 1, 'grid_like:row_vector:chain_trend_spline': 1, 'grid_like:row_vector:vector': 1, 'grid_like:column_vector': 6, 'grid_like:column_vector:spline': 1, 'grid_like:column_vector:knn': 1, 'grid_like:column_vector:linear': 1, 'grid_like:column_vector:cubic': 1, 'grid_like:column_vector:vspline': 1, 'grid_like:column_vector:trend': 1, 'grid_like:column_vector:chain_trend_spline': 1, 'grid_like:column_vector:vector': 1, 'grid_like:rotated': 6, 'grid_like:rotated:spline': 1, 'grid_like:rotated:knn': 1, 'grid_like:rotated:linear': 1, 'grid_like:rotated:cubic': 1, 'grid_like:rotated:vspline': 1, 'grid_like:rotated:trend': 1, 'grid_like:rotated:chain_trend_spline': 1, 'grid_like:rotated:vector': 1, 'grid_like:sheared': 6, 'grid_like:sheared:spline': 1, 'grid_like:sheared:knn': 1, 'grid_like:sheared:linear': 1, 'grid_like:sheared:cubic': 1, 'grid_like:sheared:vspline': 1, 'grid_like:sheared:trend': 1, 'grid_like:sheared:chain_trend_spline': 1, 'grid_like:sheared:vector': 1, 'defaults:Spline': 1, 'defaults:VectorSpline2D': 1, 'defaults:KNeighbors': 1, 'defaults:Linear': 1, 'defaults:Cubic': 1, 'defaults:ScipyGridder': 1, 'defaults:Trend': 1, 'eval:documented_defaults': 11},
-    "thorough": {'eval:spline_exact': 9223, 'eval:vspline_exact': 2808, 'eval:knn_exact': 5637, 'eval:scipy_exact': 9799, 'eval:chain_exact': 4068, 'eval:vector_exact': 1252, 'eval:trend_reproduction': 11268, 'informative_kappa_ge_1e6:spline': 1500, 'informative_kappa_ge_1e6:trend': 2300, 'distinct_nontrivial': 27000, 'layout:coordinates:2d_fortran': 3000, 'layout:coordinates:2d_transposed_view': 2800, 'layout:coordinates:2d_strided': 3000, 'layout:coordinates:1d_series': 5000, 'layout:data:2d_fortran': 1400, 'layout:data:2d_transposed_view': 1600, 'layout:data:2d_strided': 1600, 'layout:data:2d_negative_stride': 1600, 'layout:data:1d_series': 2800, 'layout:data_laid_out_differently_from_coordinates': 16000, 'data_magnitude:1e+00': 12294, 'data_magnitude:1e+03': 1152, 'data_magnitude:1e+06': 1008, 'data_magnitude:1e+09': 990, 'data_magnitude:1e+12': 864, 'data_magnitude:1e+15': 1134, 'data_magnitude:1e-03': 936, 'data_magnitude:1e-06': 864, 'data_magnitude:1e-09': 990, 'data_magnitude:1e-12': 1008, 'data_magnitude:1e-15': 864, 'size_class:knn:127': 8, 'size_class:knn:128': 8, 'size_class:knn:129': 8, 'size_class:knn:255': 8, 'size_class:knn:256': 8, 'size_class:knn:257': 8, 'size_class:knn:385': 8, 'size_class:knn:513': 8, 'size_class:linear:127': 8, 'size_class:linear:128': 8, 'size_class:linear:129': 8, 'size_class:linear:255': 8, 'size_class:linear:256': 8, 'size_class:linear:257': 8, 'size_class:linear:385': 8, 'size_class:linear:513': 8, 'size_class:spline:127': 8, 'size_class:spline:128': 8, 'size_class:spline:129': 8, 'size_class:spline:255': 8, 'size_class:spline:256': 8, 'size_class:spline:257': 8, 'size_class:spline:385': 8, 'size_class:spline:513': 8, 'size_class:vspline:127': 8, 'size_class:vspline:128': 8, 'size_class:vspline:129': 8, 'size_class:vspline:255': 8, 'size_class:vspline:256': 8, 'size_class:vspline:257': 8, 'size_class:vspline:385': 8, 'size_class:vspline:513': 8, 'history:error_then_fit:chain': 32, 'history:error_then_fit:cubic': 32, 'history:error_then_fit:knn': 32, 'history:error_then_fit:linear': 32, 'history:error_then_fit:spline': 32, 'history:error_then_fit:trend': 32, 'history:error_then_fit:vector': 32, 'history:error_then_fit:vspline': 32, 'history:held_instances_reconfigured': 129, 'history:reconfigure_after_use:chain': 32, 'history:reconfigure_after_use:cubic': 32, 'history:reconfigure_after_use:knn': 32, 'history:reconfigure_after_use:linear': 32, 'history:reconfigure_after_use:spline': 32, 'history:reconfigure_after_use:trend': 32, 'history:reconfigure_after_use:vector': 32, 'history:reconfigure_after_use:vspline': 32, 'history:reconfigure_before_use:chain': 32, 'history:reconfigure_before_use:cubic': 32, 'history:reconfigure_before_use:knn': 32, 'history:reconfigure_before_use:linear': 32, 'history:reconfigure_before_use:spline': 32, 'history:reconfigure_before_use:trend': 32, 'history:reconfigure_before_use:vector': 32, 'history:reconfigure_before_use:vspline': 32, 'history:refit_after_use:chain': 32, 'history:refit_after_use:cubic': 32, 'history:refit_after_use:knn': 32, 'history:refit_after_use:linear': 32, 'history:refit_after_use:spline': 32, 'history:refit_after_use:trend': 32, 'history:refit_after_use:vector': 32, 'history:refit_after_use:vspline': 32, 'history:refit_directly:chain': 32, 'history:refit_directly:cubic': 32, 'history:refit_directly:knn': 32, 'history:refit_directly:linear': 32, 'history:refit_directly:spline': 32, 'history:refit_directly:trend': 32, 'history:refit_directly:vector': 32, 'history:refit_directly:vspline': 32, 'history:refit_same_arrays_new_contents:chain': 32, 'history:refit_same_arrays_new_contents:cubic': 32, 'history:refit_same_arrays_new_contents:knn': 32, 'history:refit_same_arrays_new_contents:linear': 32, 'history:refit_same_arrays_new_contents:spline': 32, 'history:refit_same_arrays_new_contents:trend': 32, 'history:refit_same_arrays_new_contents:vector': 32, 'history:refit_same_arrays_new_contents:vspline': 32, 'history:size_change:equal': 394, 'history:size_change:larger': 513, 'history:size_change:smaller': 388, 'history:use:filter': 172, 'history:use:grid': 118, 'history:use:nothing': 129, 'history:use:predict_data': 81, 'history:use:predict_elsewhere': 145, 'history:use:score': 129, 'history:via_attribute_assignment': 183, 'history:via_set_params': 205, 'fit_raised:vspline:ValueError': 32, 'explicit_forces_at_the_data:spline:other_order': 256, 'explicit_forces_at_the_data:spline:same_order': 64, 'explicit_forces_at_the_data:vspline:other_order': 256, 'explicit_forces_at_the_data:vspline:same_order': 64, 'forces_container:list_of_arrays': 96, 'forces_container:strided_columns': 224, 'forces_container:tuple_of_2d_arrays': 96, 'forces_container:tuple_of_arrays': 96, 'forces_container:tuple_of_lists': 96, 'forces_order:chain_spline:np_unique': 32, 'forces_order:chain_spline:reversed': 32, 'forces_order:chain_spline:same_order': 32, 'forces_order:chain_spline:shuffled': 32, 'forces_order:chain_spline:sorted': 32, 'forces_order:chain_vspline:np_unique': 32, 'forces_order:chain_vspline:reversed': 32, 'forces_order:chain_vspline:same_order': 32, 'forces_order:chain_vspline:shuffled': 32, 'forces_order:chain_vspline:sorted': 32, 'forces_order:spline:np_unique': 32, 'forces_order:spline:reversed': 32, 'forces_order:spline:same_order': 32, 'forces_order:spline:shuffled': 32, 'forces_order:spline:sorted': 32, 'forces_order:vspline:np_unique': 32, 'forces_order:vspline:reversed': 32, 'forces_order:vspline:same_order': 32, 'forces_order:vspline:shuffled': 32, 'forces_order:vspline:sorted': 32, 'spelling:knn_k:int32': 16, 'spelling:knn_k:int64': 16, 'spelling:knn_k:int8': 16, 'spelling:knn_k:uint8': 16, 'spelling:scipy_rescale:bool(False)': 16, 'spelling:scipy_rescale:bool(True)': 16, 'spelling:scipy_rescale:int(False)': 16, 'spelling:scipy_rescale:int(True)': 16, 'spelling:spline_mindist:0-d array': 16, 'spelling:spline_mindist:int': 16, 'spelling:spline_mindist:np.float32': 16, 'spelling:spline_mindist:np.int64': 16, 'spelling:trend_degree:0-d array': 16, 'spelling:trend_degree:int32': 16, 'spelling:trend_degree:int64': 16, 'spelling:trend_degree:uint8': 16, 'spelling:vspline_mindist:0-d array': 16, 'spelling:vspline_mindist:int': 16, 'spelling:vspline_mindist:np.float32': 16, 'spelling:vspline_mindist:np.int64': 16, 'spelling:vspline_poisson:float32(0.5)': 16, 'spelling:vspline_poisson:int(-1)': 16, 'spelling:vspline_poisson:int(0)': 16, 'spelling:vspline_poisson:int(1)': 16, 'spelling:vspline_poisson:int64(-1)': 16, 'spelling:vspline_poisson:int64(0)': 16, 'spelling:vspline_poisson:ndarray(0.25)': 16, 'spelling:vspline_poisson:ndarray(1)': 16, 'errstate_raise:chain': 53, 'errstate_raise:forces_order': 53, 'errstate_raise:knn': 53, 'errstate_raise:scipy': 53, 'errstate_raise:spline': 53, 'errstate_raise:trend_poly': 53, 'errstate_raise:vector': 53, 'errstate_raise:vspline': 53, 'judged_inside_a_large_query:chain': 18, 'judged_inside_a_large_query:knn': 24, 'judged_inside_a_large_query:scipy': 12, 'judged_inside_a_large_query:spline': 12, 'judged_inside_a_large_query:vector': 6, 'judged_inside_a_large_query:vspline': 6, 'large_predict:knn:131073': 2, 'large_predict:knn:200000': 2, 'large_predict:knn:400x400': 2, 'large_predict:knn:450x600': 2, 'large_predict:chain_knn:131073': 2, 'large_predict:chain_knn:200000': 2, 'large_predict:chain_knn:400x400': 2, 'large_predict:chain_knn:450x600': 2, 'large_predict:vector_knn:131073': 2, 'large_predict:vector_knn:200000': 2, 'large_predict:vector_knn:400x400': 2, 'large_predict:vector_knn:450x600': 2, 'large_predict:spline:131073': 2, 'large_predict:spline:200000': 2, 'large_predict:spline:400x400': 2, 'large_predict:spline:450x600': 2, 'large_predict:vspline:131073': 2, 'large_predict:vspline:200000': 2, 'large_predict:vspline:400x400': 2, 'large_predict:vspline:450x600': 2, 'large_predict:linear:131073': 2, 'large_predict:linear:200000': 2, 'large_predict:linear:400x400': 2, 'large_predict:linear:450x600': 2, 'large_predict:cubic:131073': 2, 'large_predict:cubic:200000': 2, 'large_predict:cubic:400x400': 2, 'large_predict:cubic:450x600': 2, 'large_predict:chain_spline:131073': 2, 'large_predict:chain_spline:200000': 2, 'large_predict:chain_spline:400x400': 2, 'large_predict:chain_spline:450x600': 2, 'eval:shape_independence': 921, 'grid_like:interior_jitter': 120, 'grid_like:interior_jitter:spline': 12, 'grid_like:interior_jitter:knn': 12, 'grid_like:interior_jitter:linear': 12, 'grid_like:interior_jitter:cubic': 12, 'grid_like:interior_jitter:vspline': 12, 'grid_like:interior_jitter:trend': 12, 'grid_like:interior_jitter:chain_trend_spline': 12, 'grid_like:interior_jitter:vector': 12, 'grid_like:regular': 120, 'grid_like:regular:spline': 12, 'grid_like:regular:knn': 12, 'grid_like:regular:linear': 12, 'grid_like:regular:cubic': 12, 'grid_like:regular:vspline': 12, 'grid_like:regular:trend': 12, 'grid_like:regular:chain_trend_spline': 12, 'grid_like:regular:vector': 12, 'grid_like:scattered_2d': 120, 'grid_like:scattered_2d:spline': 12, 'grid_like:scattered_2d:knn': 12, 'grid_like:scattered_2d:linear': 12, 'grid_like:scattered_2d:cubic': 12, 'grid_like:scattered_2d:vspline': 12, 'grid_like:scattered_2d:trend': 12, 'grid_like:scattered_2d:chain_trend_spline': 12, 'grid_like:scattered_2d:vector': 12, 'grid_like:ij_meshgrid': 120, 'grid_like:ij_meshgrid:spline': 12, 'grid_like:ij_meshgrid:knn': 12, 'grid_like:ij_meshgrid:linear': 12, 'grid_like:ij_meshgrid:cubic': 12, 'grid_like:ij_meshgrid:vspline': 12, 'grid_like:ij_meshgrid:trend': 12, 'grid_like:ij_meshgrid:chain_trend_spline': 12, 'grid_like:ij_meshgrid:vector': 12, 'grid_like:row_vector': 120, 'grid_like:row_vector:spline': 12, 'grid_like:row_vector:knn': 12, 'grid_like:row_vector:linear': 12, 'grid_like:row_vector:cubic': 12, 'grid_like:row_vector:vspline': 12, 'grid_like:row_vector:trend': 12, 'grid_like:row_vector:chain_trend_spline': 12, 'grid_like:row_vector:vector': 12, 'grid_like:column_vector': 120, 'grid_like:column_vector:spline': 12, 'grid_like:column_vector:knn': 12, 'grid_like:column_vector:linear': 12, 'grid_like:column_vector:cubic': 12, 'grid_like:column_vector:vspline': 12, 'grid_like:column_vector:trend': 12, 'grid_like:column_vector:chain_trend_spline': 12, 'grid_like:column_vector:vector': 12, 'grid_like:rotated': 120, 'grid_like:rotated:spline': 12, 'grid_like:rotated:knn': 12, 'grid_like:rotated:linear': 12, 'grid_like:rotated:cubic': 12, 'grid_like:rotated:vspline': 12, 'grid_like:rotated:trend': 12, 'grid_like:rotated:chain_trend_spline': 12, 'grid_like:rotated:vector': 12, 'grid_like:sheared': 120, 'grid_like:sheared:spline': 12, 'grid_like:sheared:knn': 12, 'grid_like:sheared:linear': 12, 'grid_like:sheared:cubic': 12, 'grid_like:sheared:vspline': 12, 'grid_like:sheared:trend': 12, 'grid_like:sheared:chain_trend_spline': 12, 'grid_like:sheared:vector': 12, 'defaults:Spline': 16, 'defaults:VectorSpline2D': 16, 'defaults:KNeighbors': 16, 'defaults:Linear': 16, 'defaults:Cubic': 16, 'defaults:ScipyGridder': 16, 'defaults:Trend': 16, 'eval:documented_defaults': 112},
+    "quick": {'eval:spline_exact': 512, 'eval:vspline_exact': 156, 'eval:knn_exact': 313, 'eval:scipy_exact': 544, 'eval:chain_exact': 226, 'eval:vector_exact': 69, 'eval:trend_reproduction': 626, 'informative_kappa_ge_1e6:spline': 75, 'informative_kappa_ge_1e6:trend': 115, 'distinct_nontrivial': 1350, 'layout:coordinates:2d_fortran': 150, 'layout:coordinates:2d_transposed_view': 140, 'layout:coordinates:2d_strided': 150, 'layout:coordinates:1d_series': 250, 'layout:data:2d_fortran': 70, 'layout:data:2d_transposed_view': 80, 'layout:data:2d_strided': 80, 'layout:data:2d_negative_stride': 80, 'layout:data:1d_series': 140, 'layout:data_laid_out_differently_from_coordinates': 800, 'data_magnitude:1e+00': 683, 'data_magnitude:1e+03': 64, 'data_magnitude:1e+06': 56, 'data_magnitude:1e+09': 55, 'data_magnitude:1e+12': 48, 'data_magnitude:1e+15': 63, 'data_magnitude:1e-03': 52, 'data_magnitude:1e-06': 48, 'data_magnitude:1e-09': 55, 'data_magnitude:1e-12': 56, 'data_magnitude:1e-15': 48, 'size_class:knn:127': 1, 'size_class:knn:128': 1, 'size_class:knn:129': 1, 'size_class:knn:255': 1, 'size_class:knn:256': 1, 'size_class:knn:257': 1, 'size_class:knn:385': 1, 'size_class:knn:513': 1, 'size_class:linear:127': 1, 'size_class:linear:128': 1, 'size_class:linear:129': 1, 'size_class:linear:255': 1, 'size_class:linear:256': 1, 'size_class:linear:257': 1, 'size_class:linear:385': 1, 'size_class:linear:513': 1, 'size_class:spline:127': 1, 'size_class:spline:128': 1, 'size_class:spline:129': 1, 'size_class:spline:255': 1, 'size_class:spline:256': 1, 'size_class:spline:257': 1, 'size_class:spline:385': 1, 'size_class:spline:513': 1, 'size_class:vspline:127': 1, 'size_class:vspline:128': 1, 'size_class:vspline:129': 1, 'size_class:vspline:255': 1, 'size_class:vspline:256': 1, 'size_class:vspline:257': 1, 'size_class:vspline:385': 1, 'size_class:vspline:513': 1, 'history:error_then_fit:chain': 2, 'history:error_then_fit:cubic': 2, 'history:error_then_fit:knn': 2, 'history:error_then_fit:linear': 2, 'history:error_then_fit:spline': 2, 'history:error_then_fit:trend': 2, 'history:error_then_fit:vector': 2, 'history:error_then_fit:vspline': 2, 'history:held_instances_reconfigured': 7, 'history:reconfigure_after_use:chain': 2, 'history:reconfigure_after_use:cubic': 2, 'history:reconfigure_after_use:knn': 2, 'history:reconfigure_after_use:linear': 2, 'history:reconfigure_after_use:spline': 2, 'history:reconfigure_after_use:trend': 2, 'history:reconfigure_after_use:vector': 2, 'history:reconfigure_after_use:vspline': 2, 'history:reconfigure_before_use:chain': 2, 'history:reconfigure_before_use:cubic': 2, 'history:reconfigure_before_use:knn': 2, 'history:reconfigure_before_use:linear': 2, 'history:reconfigure_before_use:spline': 2, 'history:reconfigure_before_use:trend': 2, 'history:reconfigure_before_use:vector': 2, 'history:reconfigure_before_use:vspline': 2, 'history:refit_after_use:chain': 2, 'history:refit_after_use:cubic': 2, 'history:refit_after_use:knn': 2, 'history:refit_after_use:linear': 2, 'history:refit_after_use:spline': 2, 'history:refit_after_use:trend': 2, 'history:refit_after_use:vector': 2, 'history:refit_after_use:vspline': 2, 'history:refit_directly:chain': 2, 'history:refit_directly:cubic': 2, 'history:refit_directly:knn': 2, 'history:refit_directly:linear': 2, 'history:refit_directly:spline': 2, 'history:refit_directly:trend': 2, 'history:refit_directly:vector': 2, 'history:refit_directly:vspline': 2, 'history:refit_same_arrays_new_contents:chain': 2, 'history:refit_same_arrays_new_contents:cubic': 2, 'history:refit_same_arrays_new_contents:knn': 2, 'history:refit_same_arrays_new_contents:linear': 2, 'history:refit_same_arrays_new_contents:spline': 2, 'history:refit_same_arrays_new_contents:trend': 2, 'history:refit_same_arrays_new_contents:vector': 2, 'history:refit_same_arrays_new_contents:vspline': 2, 'history:size_change:equal': 21, 'history:size_change:larger': 28, 'history:size_change:smaller': 21, 'history:use:filter': 9, 'history:use:grid': 6, 'history:use:nothing': 7, 'history:use:predict_data': 4, 'history:use:predict_elsewhere': 8, 'history:use:score': 7, 'history:via_attribute_assignment': 10, 'history:via_set_params': 11, 'fit_raised:vspline:ValueError': 2, 'explicit_forces_at_the_data:spline:other_order': 16, 'explicit_forces_at_the_data:spline:same_order': 4, 'explicit_forces_at_the_data:vspline:other_order': 16, 'explicit_forces_at_the_data:vspline:same_order': 4, 'forces_container:list_of_arrays': 6, 'forces_container:strided_columns': 14, 'forces_container:tuple_of_2d_arrays': 6, 'forces_container:tuple_of_arrays': 6, 'forces_container:tuple_of_lists': 6, 'forces_order:chain_spline:np_unique': 2, 'forces_order:chain_spline:reversed': 2, 'forces_order:chain_spline:same_order': 2, 'forces_order:chain_spline:shuffled': 2, 'forces_order:chain_spline:sorted': 2, 'forces_order:chain_vspline:np_unique': 2, 'forces_order:chain_vspline:reversed': 2, 'forces_order:chain_vspline:same_order': 2, 'forces_order:chain_vspline:shuffled': 2, 'forces_order:chain_vspline:sorted': 2, 'forces_order:spline:np_unique': 2, 'forces_order:spline:reversed': 2, 'forces_order:spline:same_order': 2, 'forces_order:spline:shuffled': 2, 'forces_order:spline:sorted': 2, 'forces_order:vspline:np_unique': 2, 'forces_order:vspline:reversed': 2, 'forces_order:vspline:same_order': 2, 'forces_order:vspline:shuffled': 2, 'forces_order:vspline:sorted': 2, 'spelling:knn_k:int32': 1, 'spelling:knn_k:int64': 1, 'spelling:knn_k:int8': 1, 'spelling:knn_k:uint8': 1, 'spelling:scipy_rescale:bool(False)': 1, 'spelling:scipy_rescale:bool(True)': 1, 'spelling:scipy_rescale:int(False)': 1, 'spelling:scipy_rescale:int(True)': 1, 'spelling:spline_mindist:0-d array': 1, 'spelling:spline_mindist:int': 1, 'spelling:spline_mindist:np.float32': 1, 'spelling:spline_mindist:np.int64': 1, 'spelling:trend_degree:0-d array': 1, 'spelling:trend_degree:int32': 1, 'spelling:trend_degree:int64': 1, 'spelling:trend_degree:uint8': 1, 'spelling:vspline_mindist:0-d array': 1, 'spelling:vspline_mindist:int': 1, 'spelling:vspline_mindist:np.float32': 1, 'spelling:vspline_mindist:np.int64': 1, 'spelling:vspline_poisson:float32(0.5)': 1, 'spelling:vspline_poisson:int(-1)': 1, 'spelling:vspline_poisson:int(0)': 1, 'spelling:vspline_poisson:int(1)': 1, 'spelling:vspline_poisson:int64(-1)': 1, 'spelling:vspline_poisson:int64(0)': 1, 'spelling:vspline_poisson:ndarray(0.25)': 1, 'spelling:vspline_poisson:ndarray(1)': 1, 'errstate_raise:chain': 3, 'errstate_raise:forces_order': 3, 'errstate_raise:knn': 3, 'errstate_raise:scipy': 3, 'errstate_raise:spline': 3, 'errstate_raise:trend_poly': 3, 'errstate_raise:vector': 3, 'errstate_raise:vspline': 3, 'judged_inside_a_large_query:chain': 1, 'judged_inside_a_large_query:knn': 1, 'judged_inside_a_large_query:scipy': 1, 'judged_inside_a_large_query:spline': 1, 'judged_inside_a_large_query:vector': 1, 'judged_inside_a_large_query:vspline': 1, 'large_predict:chain_knn:200000': 1, 'large_predict:chain_spline:450x600': 1, 'large_predict:cubic:400x400': 1, 'large_predict:knn:131073': 1, 'large_predict:linear:200000': 1, 'large_predict:spline:450x600': 1, 'large_predict:vector_knn:400x400': 1, 'large_predict:vspline:131073': 1, 'eval:shape_independence': 51, 'grid_like:interior_jitter': 6, 'grid_like:interior_jitter:spline': 1, 'grid_like:interior_jitter:knn': 1, 'grid_like:interior_jitter:linear': 1, 'grid_like:interior_jitter:cubic': 1, 'grid_like:interior_jitter:vspline': 1, 'grid_like:interior_jitter:trend': 1, 'grid_like:interior_jitter:chain_trend_spline': 1, 'grid_like:interior_jitter:vector': 1, 'grid_like:regular': 6, 'grid_like:regular:spline': 1, 'grid_like:regular:knn': 1, 'grid_like:regular:linear': 1, 'grid_like:regular:cubic': 1, 'grid_like:regular:vspline': 1, 'grid_like:regular:trend': 1, 'grid_like:regular:chain_trend_spline': 1, 'grid_like:regular:vector': 1, 'grid_like:scattered_2d': 6, 'grid_like:scattered_2d:spline': 1, 'grid_like:scattered_2d:knn': 1, 'grid_like:scattered_2d:linear': 1, 'grid_like:scattered_2d:cubic': 1, 'grid_like:scattered_2d:vspline': 1, 'grid_like:scattered_2d:trend': 1, 'grid_like:scattered_2d:chain_trend_spline': 1, 'grid_like:scattered_2d:vector': 1, 'grid_like:ij_meshgrid': 6, 'grid_like:ij_meshgrid:spline': 1, 'grid_like:ij_meshgrid:knn': 1, 'grid_like:ij_meshgrid:linear': 1, 'grid_like:ij_meshgrid:cubic': 1, 'grid_like:ij_meshgrid:vspline': 1, 'grid_like:ij_meshgrid:trend': 1, 'grid_like:ij_meshgrid:chain_trend_spline': 1, 'grid_like:ij_meshgrid:vector': 1, 'grid_like:row_vector': 6, 'grid_like:row_vector:spline': 1, 'grid_like:row_vector:knn': 1, 'grid_like:row_vector:linear': 1, 'grid_like:row_vector:cubic': 1, 'grid_like:row_vector:vspline': 1, 'grid_like:row_vector:trend': 1, 'grid_like:row_vector:chain_trend_spline': 1, 'grid_like:row_vector:vector': 1, 'grid_like:column_vector': 6, 'grid_like:column_vector:spline': 1, 'grid_like:column_vector:knn': 1, 'grid_like:column_vector:linear': 1, 'grid_like:column_vector:cubic': 1, 'grid_like:column_vector:vspline': 1, 'grid_like:column_vector:trend': 1, 'grid_like:column_vector:chain_trend_spline': 1, 'grid_like:column_vector:vector': 1, 'grid_like:rotated': 6, 'grid_like:rotated:spline': 1, 'grid_like:rotated:knn': 1, 'grid_like:rotated:linear': 1, 'grid_like:rotated:cubic': 1, 'grid_like:rotated:vspline': 1, 'grid_like:rotated:trend': 1, 'grid_like:rotated:chain_trend_spline': 1, 'grid_like:rotated:vector': 1, 'grid_like:sheared': 6, 'grid_like:sheared:spline': 1, 'grid_like:sheared:knn': 1, 'grid_like:sheared:linear': 1, 'grid_like:sheared:cubic': 1, 'grid_like:sheared:vspline': 1, 'grid_like:sheared:trend': 1, 'grid_like:sheared:chain_trend_spline': 1, 'grid_like:sheared:vector': 1, 'defaults:Spline': 1, 'defaults:VectorSpline2D': 1, 'defaults:KNeighbors': 1, 'defaults:Linear': 1, 'defaults:Cubic': 1, 'defaults:ScipyGridder': 1, 'defaults:Trend': 1, 'eval:documented_defaults': 11, 'close_pairs:magnitude_1e9:knn': 1, 'close_pairs:magnitude_1e9:vector_knn': 1, 'close_pairs:magnitude_1e9:chain_knn': 1, 'close_pairs:magnitude_1e9:linear': 1, 'close_pairs:magnitude_1e9:cubic': 1, 'close_pairs:magnitude_1e9:spline': 1, 'close_pairs:utm:knn': 1, 'close_pairs:utm:vector_knn': 1, 'close_pairs:utm:chain_knn': 1, 'close_pairs:utm:linear': 1, 'close_pairs:utm:cubic': 1, 'close_pairs:utm:spline': 1, 'close_pairs:spline:informative': 2, 'close_pairs:points_merged_in_float32': 200},
+    "thorough": {'eval:spline_exact': 9223, 'eval:vspline_exact': 2808, 'eval:knn_exact': 5637, 'eval:scipy_exact': 9799, 'eval:chain_exact': 4068, 'eval:vector_exact': 1252, 'eval:trend_reproduction': 11268, 'informative_kappa_ge_1e6:spline': 1500, 'informative_kappa_ge_1e6:trend': 2300, 'distinct_nontrivial': 27000, 'layout:coordinates:2d_fortran': 3000, 'layout:coordinates:2d_transposed_view': 2800, 'layout:coordinates:2d_strided': 3000, 'layout:coordinates:1d_series': 5000, 'layout:data:2d_fortran': 1400, 'layout:data:2d_transposed_view': 1600, 'layout:data:2d_strided': 1600, 'layout:data:2d_negative_stride': 1600, 'layout:data:1d_series': 2800, 'layout:data_laid_out_differently_from_coordinates': 16000, 'data_magnitude:1e+00': 12294, 'data_magnitude:1e+03': 1152, 'data_magnitude:1e+06': 1008, 'data_magnitude:1e+09': 990, 'data_magnitude:1e+12': 864, 'data_magnitude:1e+15': 1134, 'data_magnitude:1e-03': 936, 'data_magnitude:1e-06': 864, 'data_magnitude:1e-09': 990, 'data_magnitude:1e-12': 1008, 'data_magnitude:1e-15': 864, 'size_class:knn:127': 8, 'size_class:knn:128': 8, 'size_class:knn:129': 8, 'size_class:knn:255': 8, 'size_class:knn:256': 8, 'size_class:knn:257': 8, 'size_class:knn:385': 8, 'size_class:knn:513': 8, 'size_class:linear:127': 8, 'size_class:linear:128': 8, 'size_class:linear:129': 8, 'size_class:linear:255': 8, 'size_class:linear:256': 8, 'size_class:linear:257': 8, 'size_class:linear:385': 8, 'size_class:linear:513': 8, 'size_class:spline:127': 8, 'size_class:spline:128': 8, 'size_class:spline:129': 8, 'size_class:spline:255': 8, 'size_class:spline:256': 8, 'size_class:spline:257': 8, 'size_class:spline:385': 8, 'size_class:spline:513': 8, 'size_class:vspline:127': 8, 'size_class:vspline:128': 8, 'size_class:vspline:129': 8, 'size_class:vspline:255': 8, 'size_class:vspline:256': 8, 'size_class:vspline:257': 8, 'size_class:vspline:385': 8, 'size_class:vspline:513': 8, 'history:error_then_fit:chain': 32, 'history:error_then_fit:cubic': 32, 'history:error_then_fit:knn': 32, 'history:error_then_fit:linear': 32, 'history:error_then_fit:spline': 32, 'history:error_then_fit:trend': 32, 'history:error_then_fit:vector': 32, 'history:error_then_fit:vspline': 32, 'history:held_instances_reconfigured': 129, 'history:reconfigure_after_use:chain': 32, 'history:reconfigure_after_use:cubic': 32, 'history:reconfigure_after_use:knn': 32, 'history:reconfigure_after_use:linear': 32, 'history:reconfigure_after_use:spline': 32, 'history:reconfigure_after_use:trend': 32, 'history:reconfigure_after_use:vector': 32, 'history:reconfigure_after_use:vspline': 32, 'history:reconfigure_before_use:chain': 32, 'history:reconfigure_before_use:cubic': 32, 'history:reconfigure_before_use:knn': 32, 'history:reconfigure_before_use:linear': 32, 'history:reconfigure_before_use:spline': 32, 'history:reconfigure_before_use:trend': 32, 'history:reconfigure_before_use:vector': 32, 'history:reconfigure_before_use:vspline': 32, 'history:refit_after_use:chain': 32, 'history:refit_after_use:cubic': 32, 'history:refit_after_use:knn': 32, 'history:refit_after_use:linear': 32, 'history:refit_after_use:spline': 32, 'history:refit_after_use:trend': 32, 'history:refit_after_use:vector': 32, 'history:refit_after_use:vspline': 32, 'history:refit_directly:chain': 32, 'history:refit_directly:cubic': 32, 'history:refit_directly:knn': 32, 'history:refit_directly:linear': 32, 'history:refit_directly:spline': 32, 'history:refit_directly:trend': 32, 'history:refit_directly:vector': 32, 'history:refit_directly:vspline': 32, 'history:refit_same_arrays_new_contents:chain': 32, 'history:refit_same_arrays_new_contents:cubic': 32, 'history:refit_same_arrays_new_contents:knn': 32, 'history:refit_same_arrays_new_contents:linear': 32, 'history:refit_same_arrays_new_contents:spline': 32, 'history:refit_same_arrays_new_contents:trend': 32, 'history:refit_same_arrays_new_contents:vector': 32, 'history:refit_same_arrays_new_contents:vspline': 32, 'history:size_change:equal': 394, 'history:size_change:larger': 513, 'history:size_change:smaller': 388, 'history:use:filter': 172, 'history:use:grid': 118, 'history:use:nothing': 129, 'history:use:predict_data': 81, 'history:use:predict_elsewhere': 145, 'history:use:score': 129, 'history:via_attribute_assignment': 183, 'history:via_set_params': 205, 'fit_raised:vspline:ValueError': 32, 'explicit_forces_at_the_data:spline:other_order': 256, 'explicit_forces_at_the_data:spline:same_order': 64, 'explicit_forces_at_the_data:vspline:other_order': 256, 'explicit_forces_at_the_data:vspline:same_order': 64, 'forces_container:list_of_arrays': 96, 'forces_container:strided_columns': 224, 'forces_container:tuple_of_2d_arrays': 96, 'forces_container:tuple_of_arrays': 96, 'forces_container:tuple_of_lists': 96, 'forces_order:chain_spline:np_unique': 32, 'forces_order:chain_spline:reversed': 32, 'forces_order:chain_spline:same_order': 32, 'forces_order:chain_spline:shuffled': 32, 'forces_order:chain_spline:sorted': 32, 'forces_order:chain_vspline:np_unique': 32, 'forces_order:chain_vspline:reversed': 32, 'forces_order:chain_vspline:same_order': 32, 'forces_order:chain_vspline:shuffled': 32, 'forces_order:chain_vspline:sorted': 32, 'forces_order:spline:np_unique': 32, 'forces_order:spline:reversed': 32, 'forces_order:spline:same_order': 32, 'forces_order:spline:shuffled': 32, 'forces_order:spline:sorted': 32, 'forces_order:vspline:np_unique': 32, 'forces_order:vspline:reversed': 32, 'forces_order:vspline:same_order': 32, 'forces_order:vspline:shuffled': 32, 'forces_order:vspline:sorted': 32, 'spelling:knn_k:int32': 16, 'spelling:knn_k:int64': 16, 'spelling:knn_k:int8': 16, 'spelling:knn_k:uint8': 16, 'spelling:scipy_rescale:bool(False)': 16, 'spelling:scipy_rescale:bool(True)': 16, 'spelling:scipy_rescale:int(False)': 16, 'spelling:scipy_rescale:int(True)': 16, 'spelling:spline_mindist:0-d array': 16, 'spelling:spline_mindist:int': 16, 'spelling:spline_mindist:np.float32': 16, 'spelling:spline_mindist:np.int64': 16, 'spelling:trend_degree:0-d array': 16, 'spelling:trend_degree:int32': 16, 'spelling:trend_degree:int64': 16, 'spelling:trend_degree:uint8': 16, 'spelling:vspline_mindist:0-d array': 16, 'spelling:vspline_mindist:int': 16, 'spelling:vspline_mindist:np.float32': 16, 'spelling:vspline_mindist:np.int64': 16, 'spelling:vspline_poisson:float32(0.5)': 16, 'spelling:vspline_poisson:int(-1)': 16, 'spelling:vspline_poisson:int(0)': 16, 'spelling:vspline_poisson:int(1)': 16, 'spelling:vspline_poisson:int64(-1)': 16, 'spelling:vspline_poisson:int64(0)': 16, 'spelling:vspline_poisson:ndarray(0.25)': 16, 'spelling:vspline_poisson:ndarray(1)': 16, 'errstate_raise:chain': 53, 'errstate_raise:forces_order': 53, 'errstate_raise:knn': 53, 'errstate_raise:scipy': 53, 'errstate_raise:spline': 53, 'errstate_raise:trend_poly': 53, 'errstate_raise:vector': 53, 'errstate_raise:vspline': 53, 'judged_inside_a_large_query:chain': 18, 'judged_inside_a_large_query:knn': 24, 'judged_inside_a_large_query:scipy': 12, 'judged_inside_a_large_query:spline': 12, 'judged_inside_a_large_query:vector': 6, 'judged_inside_a_large_query:vspline': 6, 'large_predict:knn:131073': 2, 'large_predict:knn:200000': 2, 'large_predict:knn:400x400': 2, 'large_predict:knn:450x600': 2, 'large_predict:chain_knn:131073': 2, 'large_predict:chain_knn:200000': 2, 'large_predict:chain_knn:400x400': 2, 'large_predict:chain_knn:450x600': 2, 'large_predict:vector_knn:131073': 2, 'large_predict:vector_knn:200000': 2, 'large_predict:vector_knn:400x400': 2, 'large_predict:vector_knn:450x600': 2, 'large_predict:spline:131073': 2, 'large_predict:spline:200000': 2, 'large_predict:spline:400x400': 2, 'large_predict:spline:450x600': 2, 'large_predict:vspline:131073': 2, 'large_predict:vspline:200000': 2, 'large_predict:vspline:400x400': 2, 'large_predict:vspline:450x600': 2, 'large_predict:linear:131073': 2, 'large_predict:linear:200000': 2, 'large_predict:linear:400x400': 2, 'large_predict:linear:450x600': 2, 'large_predict:cubic:131073': 2, 'large_predict:cubic:200000': 2, 'large_predict:cubic:400x400': 2, 'large_predict:cubic:450x600': 2, 'large_predict:chain_spline:131073': 2, 'large_predict:chain_spline:200000': 2, 'large_predict:chain_spline:400x400': 2, 'large_predict:chain_spline:450x600': 2, 'eval:shape_independence': 921, 'grid_like:interior_jitter': 120, 'grid_like:interior_jitter:spline': 12, 'grid_like:interior_jitter:knn': 12, 'grid_like:interior_jitter:linear': 12, 'grid_like:interior_jitter:cubic': 12, 'grid_like:interior_jitter:vspline': 12, 'grid_like:interior_jitter:trend': 12, 'grid_like:interior_jitter:chain_trend_spline': 12, 'grid_like:interior_jitter:vector': 12, 'grid_like:regular': 120, 'grid_like:regular:spline': 12, 'grid_like:regular:knn': 12, 'grid_like:regular:linear': 12, 'grid_like:regular:cubic': 12, 'grid_like:regular:vspline': 12, 'grid_like:regular:trend': 12, 'grid_like:regular:chain_trend_spline': 12, 'grid_like:regular:vector': 12, 'grid_like:scattered_2d': 120, 'grid_like:scattered_2d:spline': 12, 'grid_like:scattered_2d:knn': 12, 'grid_like:scattered_2d:linear': 12, 'grid_like:scattered_2d:cubic': 12, 'grid_like:scattered_2d:vspline': 12, 'grid_like:scattered_2d:trend': 12, 'grid_like:scattered_2d:chain_trend_spline': 12, 'grid_like:scattered_2d:vector': 12, 'grid_like:ij_meshgrid': 120, 'grid_like:ij_meshgrid:spline': 12, 'grid_like:ij_meshgrid:knn': 12, 'grid_like:ij_meshgrid:linear': 12, 'grid_like:ij_meshgrid:cubic': 12, 'grid_like:ij_meshgrid:vspline': 12, 'grid_like:ij_meshgrid:trend': 12, 'grid_like:ij_meshgrid:chain_trend_spline': 12, 'grid_like:ij_meshgrid:vector': 12, 'grid_like:row_vector': 120, 'grid_like:row_vector:spline': 12, 'grid_like:row_vector:knn': 12, 'grid_like:row_vector:linear': 12, 'grid_like:row_vector:cubic': 12, 'grid_like:row_vector:vspline': 12, 'grid_like:row_vector:trend': 12, 'grid_like:row_vector:chain_trend_spline': 12, 'grid_like:row_vector:vector': 12, 'grid_like:column_vector': 120, 'grid_like:column_vector:spline': 12, 'grid_like:column_vector:knn': 12, 'grid_like:column_vector:linear': 12, 'grid_like:column_vector:cubic': 12, 'grid_like:column_vector:vspline': 12, 'grid_like:column_vector:trend': 12, 'grid_like:column_vector:chain_trend_spline': 12, 'grid_like:column_vector:vector': 12, 'grid_like:rotated': 120, 'grid_like:rotated:spline': 12, 'grid_like:rotated:knn': 12, 'grid_like:rotated:linear': 12, 'grid_like:rotated:cubic': 12, 'grid_like:rotated:vspline': 12, 'grid_like:rotated:trend': 12, 'grid_like:rotated:chain_trend_spline': 12, 'grid_like:rotated:vector': 12, 'grid_like:sheared': 120, 'grid_like:sheared:spline': 12, 'grid_like:sheared:knn': 12, 'grid_like:sheared:linear': 12, 'grid_like:sheared:cubic': 12, 'grid_like:sheared:vspline': 12, 'grid_like:sheared:trend': 12, 'grid_like:sheared:chain_trend_spline': 12, 'grid_like:sheared:vector': 12, 'defaults:Spline': 16, 'defaults:VectorSpline2D': 16, 'defaults:KNeighbors': 16, 'defaults:Linear': 16, 'defaults:Cubic': 16, 'defaults:ScipyGridder': 16, 'defaults:Trend': 16, 'eval:documented_defaults': 112, 'close_pairs:magnitude_1e9:knn': 24, 'close_pairs:magnitude_1e9:vector_knn': 24, 'close_pairs:magnitude_1e9:chain_knn': 24, 'close_pairs:magnitude_1e9:linear': 24, 'close_pairs:magnitude_1e9:cubic': 24, 'close_pairs:magnitude_1e9:spline': 24, 'close_pairs:utm:knn': 24, 'close_pairs:utm:vector_knn': 24, 'close_pairs:utm:chain_knn': 24, 'close_pairs:utm:linear': 24, 'close_pairs:utm:cubic': 24, 'close_pairs:utm:spline': 24, 'close_pairs:spline:informative': 40, 'close_pairs:points_merged_in_float32': 4000},
 }
 JOBS = {"quick": 1, "thorough": 16}
 CASE_TIMEOUT_S = 300
@@ -87,8 +89,8 @@ CASE_TIMEOUT_S = 300
 
 def plan(tier):
     if tier == "quick":
-        return collections.OrderedDict(spline=400, vspline=130, knn=150, scipy=200, chain=220, vector=90, trend_poly=300, sizes=64, history=288, forces_order=100, spellings=96, large_predict=8, errstate=72, grid_like=128, defaults=28)
-    return collections.OrderedDict(spline=8000, vspline=2600, knn=3000, scipy=4000, chain=4400, vector=1800, trend_poly=6000, sizes=640, history=5760, forces_order=2000, spellings=1920, large_predict=160, errstate=1440, grid_like=2560, defaults=280)
+        return collections.OrderedDict(spline=400, vspline=130, knn=150, scipy=200, chain=220, vector=90, trend_poly=300, sizes=64, history=288, forces_order=100, spellings=96, large_predict=8, errstate=72, grid_like=128, defaults=28, close_pairs=36)
+    return collections.OrderedDict(spline=8000, vspline=2600, knn=3000, scipy=4000, chain=4400, vector=1800, trend_poly=6000, sizes=640, history=5760, forces_order=2000, spellings=1920, large_predict=160, errstate=1440, grid_like=2560, defaults=280, close_pairs=720)
 
 
 # ----------------------------------------------------------------------
@@ -1291,6 +1293,94 @@ LARGE_KINDS = ("knn", "chain_knn", "vector_knn", "spline", "vspline", "linear", 
 LARGE_SHAPES = ((131073,), (200000,), (400, 400), (450, 600))   # more than 2**17 points in one predict call
 
 
+CLOSE_KINDS = ("knn", "vector_knn", "chain_knn", "linear", "cubic", "spline")
+
+
+def _close_pairs(run, rng, verde, index):
+    """
+    Distinct points whose mutual distance is far below the float32 resolution of their coordinates (repeated measurements next to each other in
+    projected coordinates): float64 positions tell the members of a pair apart, so every datum must be reproduced at its own location.
+    """
+    kind = CLOSE_KINDS[index % len(CLOSE_KINDS)]
+    regime = ["magnitude_1e9", "utm"][(index // len(CLOSE_KINDS)) % 2]
+    if regime == "magnitude_1e9":
+        extent = 1e6
+        off_e, off_n = 1e9 * rng.choice([-1, 1]), 1e9 * rng.uniform(0.3, 1.0) * rng.choice([-1, 1])
+        sep = float(rng.uniform(5, 25))          # float32 spacing at 1e9 is 64
+    else:
+        extent = gen.log_uniform(rng, 1e3, 1e5)
+        off_e, off_n = 5e5 + rng.uniform(-2e5, 2e5), 7.5e6 + rng.uniform(-5e5, 5e5)
+        sep = float(rng.uniform(0.01, 0.03))     # float32 spacing at 5e5 is 0.03 - 0.06, at 7.5e6 it is 0.5
+    if kind == "spline":  # keep the Green's matrix informative: a smaller survey, the pair still inside one float32 cell of its coordinates
+        if regime == "magnitude_1e9":
+            extent = 1e5
+        else:
+            extent = gen.log_uniform(rng, 1e2, 1e3)
+            sep = float(rng.uniform(0.1, 0.3))   # separated along northing only (float32 spacing 0.5 at 7.5e6)
+    big = kind in ("knn", "vector_knn", "chain_knn")
+    n_base = int(rng.integers(300, 640)) if big and rng.random() < 0.5 else int(rng.integers(20, 90))
+    side = int(np.ceil(np.sqrt(n_base)))
+    gx, gy = np.meshgrid(np.arange(side), np.arange(side))
+    pick = rng.permutation(side * side)[:n_base]
+    be = (gx.ravel()[pick] + 0.5 + rng.uniform(-0.3, 0.3, n_base)) / side * extent  # well separated base points
+    bn = (gy.ravel()[pick] + 0.5 + rng.uniform(-0.3, 0.3, n_base)) / side * extent
+    n_pairs = max(2, int(n_base * rng.uniform(0.1, 0.3)))
+    who = rng.choice(n_base, n_pairs, replace=False)
+    ang = rng.uniform(0, 2 * np.pi, n_pairs) if not (kind == "spline" and regime == "utm") else np.full(n_pairs, np.pi / 2)
+    east = np.concatenate([be, be[who] + sep * np.cos(ang)]) + off_e
+    north = np.concatenate([bn, bn[who] + sep * np.sin(ang)]) + off_n
+    n = east.size
+    order = rng.permutation(n)
+    partner = np.full(n, -1)
+    partner[who], partner[n_base:] = np.arange(n_base, n), who
+    if np.unique(np.stack([east, north], axis=1), axis=0).shape[0] != n:
+        run.count("skipped:close_pairs_not_distinct_in_float64")
+        return
+    merged32 = n - np.unique(np.stack([east.astype("float32"), north.astype("float32")], axis=1), axis=0).shape[0]
+    ncomp = 2 if kind == "vector_knn" else 1
+    comps = []
+    for _ in range(ncomp):
+        d = _field(run, rng, east, north)
+        spread = float(np.ptp(d)) or 1.0
+        d[n_base:] = d[who] + spread * rng.uniform(0.5, 1.5, n_pairs) * rng.choice([-1, 1], n_pairs)  # the two members of a pair clearly differ
+        comps.append(d[order])
+    east, north = east[order], north[order]
+    with warnings.catch_warnings():
+        warnings.simplefilter("ignore")
+        knn = lambda: verde.KNeighbors(k=1, reduction=[np.mean, np.median][int(rng.integers(0, 2))])  # noqa: E731
+        if kind == "knn":
+            est = knn() if rng.random() < 0.5 else verde.KNeighbors()
+            if est.k == 1:
+                _S.expect[id(est)] = (weakref.ref(est), "KNeighbors() - the documented default is k=1")
+        elif kind == "vector_knn":
+            est = verde.Vector([knn(), knn()])
+        elif kind == "chain_knn":
+            est = verde.Chain([("trend", verde.Trend(int(rng.integers(0, 2)))), ("interp", knn())])
+        elif kind == "linear":
+            est = verde.Linear(rescale=bool(rng.random() < 0.5))
+        elif kind == "cubic":
+            est = verde.Cubic(rescale=bool(rng.random() < 0.5))
+        else:
+            est = verde.Spline()
+    layout, shaped = _shape(rng, (east, north) + tuple(comps))
+    _count_layouts(run, layout)
+    data = tuple(shaped[2:]) if ncomp > 1 else shaped[2]
+    import scipy.spatial
+
+    try:
+        _fit_predict(est, (shaped[0], shaped[1]), data, rng, run)
+    except scipy.spatial.QhullError:
+        run.count("refused:qhull")
+        return
+    run.count("close_pairs:%s:%s" % (regime, kind))
+    run.count("close_pairs:points_merged_in_float32", int(merged32))
+    rec = _lookup(est)
+    if kind == "spline" and rec is not None and rec.info is not None and not rec.info.get("skip"):
+        run.count("close_pairs:spline:" + ("informative" if rec.info.get("rel_tol", 1.0) < INFORMATIVE else "uninformative"))
+    run.sample("close_pairs:" + regime, {"estimator": _describe(est), "regime": regime, "n": n, "pairs": n_pairs, "separation": sep,
+                                         "points_merged_in_float32": int(merged32), "easting": east, "northing": north, "data": comps[0]})
+
+
 GRID_GEOMETRIES = ("interior_jitter", "regular", "scattered_2d", "ij_meshgrid", "row_vector", "column_vector", "rotated", "sheared")
 GRID_KINDS = ("spline", "knn", "linear", "cubic", "vspline", "trend", "chain_trend_spline", "vector")
 
@@ -1657,6 +1747,8 @@ def run_case(run, tap, stream, index, rng):
         run.sample("trend_poly", {"degree": degree, "polynomial_degree": deg_p, "coefficients": coefs, "n": n, "easting": east, "northing": north,
                                   "data": data, "query_easting": qe, "query_northing": qn, "prediction": np.asarray(pred),
                                   "kappa_V": (_lookup(est).info or {}).get("kappa")})
+    elif stream == "close_pairs":
+        _close_pairs(run, rng, verde, index)
     elif stream == "defaults":
         defaults_case(run, rng, verde, index, ("Spline", "VectorSpline2D", "KNeighbors", "Linear", "Cubic", "ScipyGridder", "Trend"))
     elif stream == "grid_like":
